@@ -30,7 +30,8 @@ Inductive op :=
 | ODelete (q : path) (c : cnd)
 | OWalkDeleted (q : path) (c : cnd)
 | OChildren (p : path)
-| OIsBranch (p : path).
+| OIsBranch (p : path)
+| OQueryErr (q : path).   (* Query whose visitor fails at its first call: is an error returned? *)
 
 Inductive nkind := KAbsent | KLeaf (v : Z) | KBranch.
 
@@ -123,6 +124,7 @@ Definition mstep (t : tree Z) (o : op) : tree Z * obs :=
       let r := delete_cond t q (cnd_eval c) in (fst r, RVals (map snd (snd r)))
   | OChildren p => (t, RNames (children_at t p))
   | OIsBranch p => (t, RBool (is_branch_at t p))
+  | OQueryErr q => (t, RBool (match query t q with [] => false | _ :: _ => true end))
   end.
 
 (** ** the specification side: a flat map, no stored path a prefix of another *)
@@ -186,6 +188,7 @@ Definition fstep (f : flat) (o : op) : flat * obs :=
   | OChildren p =>
       (f, RNames (if fbranch f p then Some (fchildren f p) else None))
   | OIsBranch p => (f, RBool (fbranch f p))
+  | OQueryErr q => (f, RBool (match fselect f q CAll with [] => false | _ :: _ => true end))
   end.
 
 (** ** known findings (narrow classes; see /verif/known_findings.json)
